@@ -490,7 +490,21 @@ void c21_case(Ctx& c, Rng& r) {
         if (fk == 3) { manifest.expires_at = std::chrono::system_clock::now() + seconds(r.below(5)); flaw = "remaining-below-min-ttl"; admissible = false; }
         if (fk == 4) { manifest.chunk_id[5] ^= 1; flaw = "manifest-for-another-chunk"; admissible = false; }
         if (fk == 5) { manifest.threshold = static_cast<std::uint8_t>(manifest.shards.size() + 1); flaw = "threshold-not-met"; admissible = false; }
-        if (fk == 6) { ap.assigned_shards = {manifest.shards[0].index, 77}; flaw = "assigned-shard-missing"; admissible = false; }
+        if (fk == 6) {
+            flaw = "assigned-shard-missing";
+            admissible = false;
+            if (r.chance(1, 2) || manifest.shards.size() <= manifest.threshold) ap.assigned_shards = {manifest.shards[0].index, 77};
+            else {
+                // the manifest carries a strict subset of the split (still at or above its threshold); the announce assigns an
+                // index that lies inside 1..total_shares but is not among the shares carried
+                const auto k = r.below(manifest.shards.size());
+                const auto gone = manifest.shards[k].index;
+                manifest.shards.erase(manifest.shards.begin() + static_cast<std::ptrdiff_t>(k));
+                ap.assigned_shards = {gone};
+                if (r.chance(1, 2)) ap.assigned_shards.push_back(manifest.shards[0].index);
+                c.note("announces.assigned-index-in-range-but-not-carried");
+            }
+        }
         if (fk == 9) { ap.assigned_shards = {manifest.shards[0].index}; }
         ap.manifest_uri = protocol::encode_manifest(manifest);
         if (fk == 7) { ap.manifest_uri = r.chance(1, 2) ? std::string{} : "eph://!!!notbase64"; flaw = "undecodable-manifest"; admissible = false; }
